@@ -90,6 +90,10 @@ type hist struct {
 	RdbSize  int64  `json:"rdb_size"` // 0 = no snapshot
 	LogLeft  int64  `json:"log_left"`
 	LogRight int64  `json:"log_right"`
+	// run id adopted but not a byte cached: Voided > 0 = a log writer was opened at that offset and
+	// its source connection broke before the first byte; Voided = 0 with IDOnly = only SetRunId so far
+	Voided int64 `json:"voided_at,omitempty"`
+	IDOnly bool  `json:"id_only,omitempty"`
 }
 
 func (h hist) empty() bool { return h.ID == "" }
@@ -222,6 +226,9 @@ func (f *feeder) load(h hist) error {
 	if h.empty() {
 		return nil
 	}
+	if h.IDOnly {
+		return f.adoptIDOnly(h.ID, h.Voided)
+	}
 	if f.input != nil {
 		f.input.set(h.ID, zeroReplID)
 	}
@@ -232,6 +239,42 @@ func (f *feeder) load(h hist) error {
 		f.input.set(h.ID, zeroReplID)
 	}
 	return f.append(h.LogRight - h.LogLeft)
+}
+
+// adoptIDOnly leaves the channel with the source's run id and no byte: what RedisInput.syncMeta +
+// syncData leave behind when the cache was voided (DelRunId, SetRunId) and the source connection broke
+// before the first byte of the new log writer (at > 0), or the window before that writer exists (at = 0).
+func (f *feeder) adoptIDOnly(id string, at int64) error {
+	f.closeLog()
+	if f.input != nil {
+		f.input.set(id, zeroReplID)
+	}
+	if err := f.ch.DelRunId(f.ch.RunId()); err != nil {
+		return fmt.Errorf("%w: DelRunId: %v", errHarness, err)
+	}
+	if err := f.ch.SetRunId(id); err != nil {
+		return fmt.Errorf("%w: SetRunId: %v", errHarness, err)
+	}
+	f.mu.Lock()
+	f.id, f.pw, f.aw, f.right, f.upper = id, nil, nil, -1, -1
+	f.mu.Unlock()
+	if at > 0 {
+		pr, pw := io.Pipe()
+		aw, err := f.ch.NewAofWritter(bufio.NewReaderSize(pr, 64*1024), at)
+		if err != nil {
+			return fmt.Errorf("%w: NewAofWritter: %v", errHarness, err)
+		}
+		aw.Start()
+		pw.Close() // the connection breaks before the first byte
+		ctx, cancel := context.WithTimeout(context.Background(), feedWatchdog)
+		_ = aw.Wait(ctx)
+		cancel()
+		aw.Close()
+	}
+	if sp, _ := f.ch.StartPoint(nil); sp.RunId != id || sp.Offset != -1 {
+		return fmt.Errorf("%w: expected a cache with run id and no data, channel reports %v", errHarness, sp)
+	}
+	return nil
 }
 
 // append writes the next n log bytes and waits until the channel accounts for them.
